@@ -113,24 +113,27 @@ def _work(job):
             out["runs"] += len(reading[w])
             if res is None:
                 continue
-            kinds, msg, tags = res
+            kinds, msg, tags, per_run = res
             rec = {"flags": fl, "input": w.hex(), "kinds": sorted(kinds), "msg": msg, "tags": sorted(tags)}
             kf = None
             for t in tags:
                 if t.startswith("quirk:"):
                     kf = t[6:]
-            for t in tags:
-                if t in KNOWN_BY_TAG and kinds <= KNOWN_BY_TAG[t][1]:
-                    kf = KNOWN_BY_TAG[t][0]
-            if kf is None and "continued-after-provisional-end" in tags and kinds <= {"event-data", "final-data"}:
-                kf = "F-01f"
-            if kf is None and "continued-after-provisional-end" in tags and ({"out-of-space", "oos-by-action"} & set(tags)):
-                # the early `delete` / assignment decides whether a later append still fits: the difference shows as another route
-                kf = "F-01f"
-            if kf is None and {"do-action-after-provisional-end", "oos-by-action"} <= set(tags):
-                # F-01f again: a `delete` / assignment performed too early decides whether a later append still fits, so the difference
-                # shows as a different route (out-of-space or not) rather than as different data
-                kf = "F-01f"
+            # a mismatch is explained by a known finding when, for some resolution of the reading's latitude, the run went through the
+            # situation the finding describes and differs from the parser in the way the finding explains
+            for kind, tg in per_run:
+                if kf:
+                    break
+                for t in tg:
+                    if t in KNOWN_BY_TAG and kind in KNOWN_BY_TAG[t][1]:
+                        kf = KNOWN_BY_TAG[t][0]
+                if kf is None and "continued-after-provisional-end" in tg and kind in ("event-data", "final-data"):
+                    kf = "F-01f"
+                if kf is None and "continued-after-provisional-end" in tg and ({"out-of-space", "oos-by-action"} & tg):
+                    # the early `delete` / assignment decides whether a later append still fits: the difference shows as another route
+                    kf = "F-01f"
+                if kf is None and {"do-action-after-provisional-end", "oos-by-action"} <= tg:
+                    kf = "F-01f"
             if kf:
                 rec["known"] = kf
                 if len(out["known"]) < 5:
